@@ -216,12 +216,30 @@ func (p *Program) applyRenames() []string {
 		fresh[funcGroup(k)] = append(fresh[funcGroup(k)], fn)
 	}
 	var notes []string
+	pair := func(old string, fn *ssa.Function) {
+		notes = append(notes, FuncKey(fn)+" is "+old+" renamed")
+		oldName[fn] = old[strings.LastIndex(old, ".")+1:]
+	}
 	for g, ms := range missing {
 		if len(ms) == 1 && len(fresh[g]) == 1 {
-			old := ms[0]
-			fn := fresh[g][0]
-			notes = append(notes, FuncKey(fn)+" is "+old+" renamed")
-			oldName[fn] = old[strings.LastIndex(old, ".")+1:]
+			pair(ms[0], fresh[g][0])
+			continue
+		}
+		// several at once: pair those whose signature is unique on both sides
+		bySigOld := map[string][]string{}
+		for _, m := range ms {
+			if s := knownSigs[m]; s != "" {
+				bySigOld[s] = append(bySigOld[s], m)
+			}
+		}
+		bySigNew := map[string][]*ssa.Function{}
+		for _, fn := range fresh[g] {
+			bySigNew[sigString(fn)] = append(bySigNew[sigString(fn)], fn)
+		}
+		for s, olds := range bySigOld {
+			if len(olds) == 1 && len(bySigNew[s]) == 1 {
+				pair(olds[0], bySigNew[s][0])
+			}
 		}
 	}
 	if len(oldName) > 0 {
@@ -496,4 +514,21 @@ func (p *Program) applyFieldRenames() []string {
 	}
 	sort.Strings(notes)
 	return notes
+}
+
+// sigString: parameter and result types of a function, package paths shortened.
+func sigString(fn *ssa.Function) string {
+	q := func(pk *types.Package) string { return relPkgName(pk) }
+	tup := func(t *types.Tuple) string {
+		var parts []string
+		for i := 0; i < t.Len(); i++ {
+			parts = append(parts, types.TypeString(t.At(i).Type(), q))
+		}
+		return strings.Join(parts, ",")
+	}
+	s := "(" + tup(fn.Signature.Params()) + ")(" + tup(fn.Signature.Results()) + ")"
+	if fn.Signature.Variadic() {
+		s += "..."
+	}
+	return s
 }
